@@ -555,6 +555,9 @@ class Interp:
             u = op["uneval"]
             if u.endswith("Unsigned::USIZE"):
                 return vsize(self.tn_lin(fr.crate, op["uneval_args"][0]["ty"]))
+            for nm_, w_ in (("Unsigned::U32", 32), ("Unsigned::U64", 64), ("Unsigned::U16", 16), ("Unsigned::U128", 128)):
+                if u.endswith(nm_):
+                    return vint(T.isize(w_, self.tn_lin(fr.crate, op["uneval_args"][0]["ty"])))
             if "promoted" in op:
                 return self.eval_promoted(st, fr, op["promoted"])
             # non-generic named const of the crate: try the const table
@@ -640,6 +643,8 @@ class Interp:
         if k == "discriminant":
             v = self.eval_place(st, fr, rv["place"])
             if v[0] == "enum":
+                if v[1] == "core::cmp::Ordering":
+                    return vsize({0: 255, 1: 0, 2: 1}[v[2]])      # i8 discriminants -1, 0, 1 as switch bits
                 return vsize(v[2])
             if v[0] == "symopt":
                 return ("symdisc", v)
@@ -1071,8 +1076,13 @@ class Interp:
     def do_call(self, st, fr, t, bb):
         f = t["func"]
         if f["k"] != "const" or "fn" not in f:
-            raise Undecided("indirect call")
-        fn = f["fn"]
+            # a call through a local holding a function pointer (`let decode: fn(..) -> _ = path;`)
+            fv = self.eval_operand(st, fr, f) if f["k"] in ("copy", "move") else None
+            if fv is None or fv[0] != "fn":
+                raise Undecided("indirect call")
+            fn = fv[1]
+        else:
+            fn = f["fn"]
         args = [self.eval_operand(st, fr, a) for a in t["args"]]
         ci = {"fn": fn, "args": args, "fr": fr, "bb": bb, "term": t, "argops": t["args"]}
         return self.call(st, ci)
